@@ -23,7 +23,7 @@ RULE = (
     "products, concatenation, shared pass-through cotangents; fan-out by drawing sources with replacement) against the full "
     "Jacobian of an independent dual-number forward sweep on raw NumPy: J^T g for two cotangents, the same VJP function called "
     "again, and J v in forward mode, tolerance 1e-10 * max|J| * size."
-    ' Later additions: array programs also check the derivative of the backward pass at a zero cotangent (make_jvp_reversemode) and forward mode through the backward pass against the dual reference differentiated numerically; statements wherec (a value as the condition of where and as an operand), widx / whole-array index operations, textend (a sequence argument extended by earlier values); programs whose reference run decides a branch or loop count within 1e-7 of its threshold are rejected.'
+    ' Later additions: array programs also check the derivative of the backward pass at a zero cotangent (make_jvp_reversemode) and forward mode through the backward pass against the dual reference differentiated numerically; statements wherec (a value as the condition of where and as an operand), widx / whole-array index operations, textend (a sequence argument extended by earlier values); programs whose reference run decides a branch or loop count within 1e-7 of its threshold are rejected. kink_graph: piecewise operations evaluated exactly on a kink inside a graph with fan-out (forward- and reverse-mode Jacobians are the same matrix). sliced_layers: layered graphs whose parameters are read through slices of a list / tuple of (W, b) pairs (central differences and the forward-mode pairing).'
 )
 
 LOG = []
@@ -730,6 +730,110 @@ def selftest():
 
 from functools import partial  # noqa: E402
 
+def sliced_layers_body(c):
+    """A layered graph whose parameters sit in a list / tuple of (W, b) pairs (tuples, lists or dicts) and are READ THROUGH SLICES of that container
+    (`params[1:]`, `params[:-1]`, two adjacent slices, stepped slices), alone or next to integer reads, in a drawn order.  Every leaf's reverse-mode
+    gradient equals central differences of the plain run, and the forward-mode derivative along a drawn direction equals its pairing with that gradient."""
+    import autograd
+    import autograd.numpy as anp
+
+    vseed = c.seed()
+    L = c.int(2, 4)
+    width = c.int(1, 3)
+    pair_kind = c.choice(["tuple", "list", "dict"])
+    outer_kind = c.choice(["list", "tuple"])
+    pattern = c.choice(["head_then_tail", "tail_only", "init_then_last", "two_slices", "stepped", "tail_then_head", "all_slice", "neg_slice"])
+    cut = c.int(1, L - 1)
+    arrs, _ = values.generic(vseed, [(width, width)] * L + [(width,)] * L + [(2, width)], -0.9, 0.9)
+    Ws, bs, X = arrs[:L], arrs[L:2 * L], arrs[2 * L]
+    mkpair = {"tuple": lambda W, b: (W, b), "list": lambda W, b: [W, b], "dict": lambda W, b: {"W": W, "b": b}}[pair_kind]
+    unpair = (lambda p_: (p_["W"], p_["b"])) if pair_kind == "dict" else (lambda p_: (p_[0], p_[1]))
+    build = lambda Ws_, bs_: (list if outer_kind == "list" else tuple)(mkpair(W, b) for W, b in zip(Ws_, bs_))
+    sample = {"layers": L, "width": width, "pair": pair_kind, "outer": outer_kind, "pattern": pattern, "cut": cut, "vseed": vseed}
+    c.features.update(pattern=pattern, pair=pair_kind, outer=outer_kind, layers=L)
+
+    def layer(ns, h, pr):
+        W, b = unpair(pr)
+        return ns.tanh(ns.dot(h, W) + b)
+
+    def net(params, ns=anp):
+        h = X
+        if pattern == "head_then_tail":
+            h = layer(ns, h, params[0])
+            for pr in params[1:]:
+                h = layer(ns, h, pr)
+        elif pattern == "tail_only":
+            for pr in params[1:]:
+                h = layer(ns, h, pr)
+        elif pattern == "init_then_last":
+            for pr in params[:-1]:
+                h = layer(ns, h, pr)
+            h = layer(ns, h, params[-1])
+        elif pattern == "two_slices":
+            for pr in params[:cut]:
+                h = layer(ns, h, pr)
+            for pr in params[cut:]:
+                h = layer(ns, h, pr)
+        elif pattern == "stepped":
+            for pr in params[::2]:
+                h = layer(ns, h, pr)
+            for pr in params[1::2]:
+                h = layer(ns, h, pr)
+        elif pattern == "tail_then_head":
+            for pr in params[1:]:
+                h = layer(ns, h, pr)
+            h = layer(ns, h, params[0]) + h
+        elif pattern == "all_slice":
+            for pr in params[:]:
+                h = layer(ns, h, pr)
+        else:
+            for pr in params[-cut:]:
+                h = layer(ns, h, pr)
+            for pr in params[:-cut]:
+                h = layer(ns, h, pr)
+        return ns.sum(h * h)
+
+    p0 = build(Ws, bs)
+    try:
+        g = autograd.grad(net)(p0)
+        dW, db = values.generic(vseed, [(width, width)] * L, -1.0, 1.0, stream=5)[0], values.generic(vseed, [(width,)] * L, -1.0, 1.0, stream=6)[0]
+        try:
+            tan = float(autograd.make_jvp(net)(p0)(build(dW, db))[1])
+        except NotImplementedError:
+            tan = None
+    except Exception as e:
+        if not from_autograd(e):
+            raise
+        from ..case import describe_exc
+
+        return fail("unexpected_exception", describe_exc(e), f"C03|sliced_layers|{pattern}|exception", sample=sample)
+    try:
+        gp = [unpair(pr) for pr in g]
+        ok_struct = len(gp) == L and all(onp.shape(gw) == (width, width) and onp.shape(gb) == (width,) for gw, gb in gp)
+    except Exception:
+        ok_struct = False
+    if not ok_struct:
+        return fail("wrong_structure", f"gradient has another structure than the parameters: {g!r:.200}", f"C03|sliced_layers|{pattern}|structure", sample=sample)
+    hh = 1e-6
+    for li in range(L):
+        for which, arr in (("W", Ws[li]), ("b", bs[li])):
+            num = onp.zeros(arr.shape)
+            for idx in onp.ndindex(*arr.shape):
+                def at(delta):
+                    Ws2, bs2 = [w.copy() for w in Ws], [b_.copy() for b_ in bs]
+                    (Ws2 if which == "W" else bs2)[li][idx] += delta
+                    return float(net(build(Ws2, bs2), onp))
+                num[idx] = (at(hh) - at(-hh)) / (2 * hh)
+            got = onp.asarray(gp[li][0 if which == "W" else 1])
+            if not onp.allclose(got, num, rtol=1e-5, atol=1e-6):
+                return fail("wrong_value", f"layer {li} {which}: reverse-mode gradient {got.tolist()} but central differences give {num.tolist()}", f"C03|sliced_layers|{pattern}|value", sample=sample)
+    if tan is not None:
+        pair = sum(float(onp.sum(onp.asarray(gp[li][0]) * dW[li]) + onp.sum(onp.asarray(gp[li][1]) * db[li])) for li in range(L))
+        if abs(tan - pair) > 1e-10 * (1.0 + abs(pair)):
+            return fail("modes_differ", f"forward-mode derivative along a direction is {tan!r}, its pairing with the reverse-mode gradient {pair!r}", f"C03|sliced_layers|{pattern}|modes", sample=sample)
+    return ok(nontrivial=True, key=json.dumps([L, width, pair_kind, outer_kind, pattern, cut]), labels=["sliced_layers", "pattern=" + pattern, "pair=" + pair_kind], sample=sample)
+
+
 def kink_graph_body(c):
     """A piecewise operation evaluated exactly ON one of its kinks (C04's kink families: clip bounds, ties under sort / maximum / minimum / max, exact
     zeros) inside a small graph with fan-out: K = piece(t); y = sin(K) * t + K * K.  Each mode picks a one-sided derivative at the kink; the Jacobian
@@ -773,6 +877,7 @@ PROP = Prop("C03", [
     Test("toposort", toposort_body, quick=3000, thorough=100000, shard_size=2500),
     Test("array_programs", array_body, quick=1500, thorough=20000, shard_size=250),
     Test("kink_graph", kink_graph_body, quick=1000, thorough=8000, shard_size=250),
+    Test("sliced_layers", sliced_layers_body, quick=600, thorough=5000, shard_size=100),
 ], RULE, selftest=selftest, assumptions=[
     "reference tape (vh/refs/tape.py, ~100 lines, forward and reverse sweeps cross-checked on every case) is correct",
     "dual-number reference sweep for array programs (vh/refs/dual.py) is correct; it is checked against central differences at start-up",
